@@ -278,7 +278,12 @@ func (b *basicCommonValidator) Validate(data interface{}) (res *Result) {
 
 	for _, enumValue := range b.Enum {
 		actualType := reflect.TypeOf(enumValue)
-		if actualType == nil { // Safeguard
+		if actualType == nil {
+			// a null enum value only matches a null instance
+			if data == nil {
+				return nil
+			}
+
 			continue
 		}
 
